@@ -2279,6 +2279,16 @@ func sliceNeededCnt(P *Program, r *Result, rule string, fa *FA, fn *ssa.Function
 					return ext(x.Common().Args[1], linConst(w))
 				}
 			}
+			// an unchecked helper of the repository that reads the first k bytes of the slice it is given
+			if cal := x.Common().StaticCallee(); cal != nil && inRepo(cal) {
+				for i, a := range x.Common().Args {
+					if isByteSlice(a.Type()) && i < len(cal.Params) {
+						if k := sliceReadExtent(cal, cal.Params[i]); k > 0 {
+							return ext(a, linConst(k))
+						}
+					}
+				}
+			}
 		case *ssa.Return:
 			if cntIdx >= 0 && isNilConst(x.Results[res.Len()-1]) {
 				return fa.prove(ineqLE(need, fa.expand(x.Results[cntIdx])), blk, rootCtx)
@@ -2485,4 +2495,39 @@ func rejectClassExtra(pb, b *ssa.BasicBlock) string {
 		return ""
 	}
 	return ""
+}
+
+// sliceReadExtent: for a straight-line repository helper, the number of leading bytes of its slice parameter p it
+// reads on every call (a big-endian load of p, or constant indexes into p); 0 when it is not of that shape.
+func sliceReadExtent(fn *ssa.Function, p *ssa.Parameter) int64 {
+	if fn == nil || fn.Blocks == nil || len(fn.Blocks) != 1 {
+		return 0
+	}
+	var ext int64
+	for _, in := range fn.Blocks[0].Instrs {
+		switch x := in.(type) {
+		case *ssa.Call:
+			if cal := x.Common().StaticCallee(); cal != nil && fnPkgPath(cal) == "encoding/binary" && len(x.Common().Args) >= 2 && x.Common().Args[1] == ssa.Value(p) {
+				w := int64(0)
+				switch {
+				case strings.HasSuffix(cal.Name(), "int16"):
+					w = 2
+				case strings.HasSuffix(cal.Name(), "int32"):
+					w = 4
+				case strings.HasSuffix(cal.Name(), "int64"):
+					w = 8
+				}
+				if w > ext {
+					ext = w
+				}
+			}
+		case *ssa.IndexAddr:
+			if x.X == ssa.Value(p) {
+				if k, ok := constInt(x.Index); ok && k >= 0 && k+1 > ext {
+					ext = k + 1
+				}
+			}
+		}
+	}
+	return ext
 }
